@@ -67,6 +67,10 @@ pub struct Script {
     pub client_path: String,
     #[serde(default)]
     pub read_cap: usize,
+    /// server under test: the application waits this long (ms) between being offered the session
+    /// request and accepting it
+    #[serde(default)]
+    pub accept_delay_ms: u64,
     /// pause (ms) the application makes before every accept_uni / accept_bi / receive_datagram
     /// call (0 = it is always waiting)
     #[serde(default)]
@@ -197,6 +201,7 @@ pub fn run_script(script: &Script, trace: bool, prefix: &str) -> (Exec, Option<O
             let (rep, _rs) = rp::raw_client_endpoint(&net, rp::RAW_CLIENT_ADDR.parse().unwrap(), sut::raw_transport(), r.seed32(), b"h3");
             let sep = s.ep;
             let (st, ap, decision) = (sut_state.clone(), app_slot.clone(), sc.decision.clone());
+            let accept_delay_ms = sc.accept_delay_ms;
             // the server application: accept sessions for as long as the endpoint lives
             tokio::spawn(async move {
                 loop {
@@ -221,7 +226,12 @@ pub fn run_script(script: &Script, trace: bool, prefix: &str) -> (Exec, Option<O
                                         req.too_many_requests().await;
                                         *st.lock().unwrap() = SutSession::Rejected;
                                     }
-                                    _ => match req.accept().await {
+                                    _ => match {
+                                        if accept_delay_ms > 0 {
+                                            tokio::time::sleep(Duration::from_millis(accept_delay_ms)).await;
+                                        }
+                                        req.accept().await
+                                    } {
                                         Ok(conn) => {
                                             *st.lock().unwrap() = SutSession::Established { session_id: conn.session_id().into_u64(), authority, path, headers };
                                             *ap.lock().unwrap() = Some(App::start(conn));
@@ -549,6 +559,7 @@ pub fn base_script(seed: u64, server_under_test: bool) -> Script {
         stretch_pm: if rng.chance_pm(300) { 350 } else { 0 },
         burn: 0,
         app_pace_ms: 0,
+        accept_delay_ms: 0,
         long_gap_ms: if rng.chance_pm(250) { *rng.pick(&[20u64, 600, 1_500, 4_000]) } else { 0 },
     }
 }
